@@ -72,15 +72,38 @@ def call(cname, name):
     return engine.with_step_budget(FNS[cname], (name,), budget=20000)
 
 
+_OTHER_KEYS = ["a", "D", "f#", "Eb", "c", "B", "e"]
+
+
 def run_constructors(name):
     S = engine.S
     if not P.is_name(name):
         raise engine.HarnessError("case %r is not a name" % (name,))
+    first = {}
     for cname in I.CONSTRUCTOR_NAMES:
         r = call(cname, name)
+        first[cname] = r
         check_edge(S, name, cname, r)
         S.outcome((cname, r if isinstance(r, str) and len(r) < 12 else repr(r)[:12]))
     S.trans(len(I.CONSTRUCTOR_NAMES))
+    # the constructors are functions of the note alone: the same answers after the module's other entry
+    # points (diatonic steps in several keys incl. relative minors, measuring, naming, shorthand) were used
+    k = len(name) % len(_OTHER_KEYS)
+    for fn, args in (("second", ("E", _OTHER_KEYS[k])), ("sixth", ("A", _OTHER_KEYS[(k + 1) % len(_OTHER_KEYS)])),
+                     ("fourth", ("B", _OTHER_KEYS[(k + 2) % len(_OTHER_KEYS)])), ("measure", ("C", "Dbb")),
+                     ("determine", ("C", "Gb")), ("from_shorthand", ("D", "b7", False)),
+                     ("is_consonant", ("C", "F", False)), ("is_dissonant", ("C", "F", True))):
+        try:
+            getattr(intervals, fn)(*args)
+        except Exception:                                   # noqa -- judged elsewhere (C03, C04)
+            pass
+    for cname in I.CONSTRUCTOR_NAMES:
+        again = call(cname, name)
+        if again != first[cname] and not (isinstance(again, BaseException) and isinstance(first[cname], BaseException)):
+            S.problem("intervals.%s(%r) asked again after diatonic steps, measure, determine and from_shorthand were used" % (cname, name),
+                      first[cname], again)
+            break
+    S.trans(len(I.CONSTRUCTOR_NAMES) + 8)
     S.count("constructor_inputs")
     if len(name) - 1 > MAX_ACC:
         S.count("inputs_with_more_than_six_accidentals")
